@@ -90,11 +90,16 @@ def run(chk):
         c03b.run_b(chk)
     except ImportError:
         chk.notes.append("part (b) generated records: not built yet")
+    from . import c03c
+    c03c.run_c(chk)
     return chk.finish(
         rule="(a) one case per sweep process: native sweep over every (storage size 1..16, bit offset, width 1..64) "
              "triple x {get,set,raw_get,raw_set[,4 const forms]} x 3 prefill patterns x 11 values, whole storage "
              "compared with a bit-vector model; Miri shards over boundary triples. (b) one case per generated record "
-             "x option set; non-trivial = record has >=1 bit-field and both directions were exercised. The numbers "
+             "x option set; non-trivial = record has >=1 bit-field and both directions were exercised. (c) one case per generated C++ class "
+             "template with bit-fields (clang reports no offsets there: bindgen computes the units itself): all 2^k extreme-value vectors "
+             "(k<=6, else 48 sampled) + 12 random vectors x 2 fill patterns stored through setters and raw setters of R<c_int>, object bytes "
+             "and getter values compared with a C++ program using R<int>. The numbers "
              "under 'observed' are the event counts the monitors actually compared.",
         assumptions=["reference bit-vector model: bit i of the field is bit offset+i of the little-endian byte array "
                      "(x86_64 host; big-endian paths are not executed)",
